@@ -51,7 +51,7 @@ pub const REASONS: [Option<u8>; 11] = [None, Some(0), Some(1), Some(2), Some(3),
 
 pub fn atoms() -> Vec<RevokedSpec> {
     let times = [TimeSpec::ymd(2023, 6, 1), TimeSpec::ymdhms(2049, 12, 31, 23, 59, 59), TimeSpec::ymd(2050, 1, 1).with_offset(3600)];
-    let inv = [None, Some(TimeSpec::ymd(2024, 3, 4)), Some(TimeSpec::ymd(2051, 1, 1))];
+    let inv = [None, Some(TimeSpec::ymd(2024, 3, 4)), Some(TimeSpec::ymd(2051, 1, 1)), Some(TimeSpec::ymdhms(2024, 2, 27, 2, 13, 20).with_nanos(500_000_000).with_offset(-3600))];
     let mut v = Vec::new();
     for s in serial_atoms() {
         for t in times {
